@@ -142,7 +142,7 @@ func ModelJSONDecode(d *json.Decoder, v interface{}) error {
 
 // ModelIOCopy models io.Copy: everything readable from src is written to dst in one Write.
 func ModelIOCopy(dst io.Writer, src io.Reader) (int64, error) {
-	data, err := io.ReadAll(src)
+	data, err := ReadAll(src)
 	if err != nil {
 		return 0, err
 	}
